@@ -36,7 +36,7 @@ def blobs(rng, d=None, n_classes=None, n_per=None, dyadic=False):
     return X, y
 
 
-def pairs_from(X, y, rng, n=None):
+def pairs_from(X, y, rng, n=None, repeats=None):
     n = n or 3 * len(set(y)) ** 2 + 6
     c = Constraints(y)
     with warnings.catch_warnings():
@@ -44,16 +44,38 @@ def pairs_from(X, y, rng, n=None):
         a, b, cc, dd = c.positive_negative_pairs(n, random_state=int(rng.randint(1 << 30)))
     idx = np.vstack([np.column_stack([a, b]), np.column_stack([cc, dd])])
     yy = np.concatenate([np.ones(len(a), dtype=int), -np.ones(len(cc), dtype=int)])
+    if repeats is None:
+        repeats = rng.rand() < 0.35
+    if repeats and len(idx):
+        idx, yy = with_repeats(rng, idx, yy)
     return idx, yy
 
 
-def quads_from(X, y, rng, n=None):
+def with_repeats(rng, rows, labels=None):
+    """the same constraint listed several times, with uneven multiplicities (a constraint listed k times counts k times
+    in every documented objective), at random positions"""
+    m = int(rng.randint(1, 4))
+    pick = rng.choice(len(rows), size=min(m, len(rows)), replace=False)
+    extra = np.concatenate([np.repeat(p_, int(rng.randint(1, 5))) for p_ in pick])
+    order = rng.permutation(len(rows) + len(extra))
+    allrows = np.concatenate([np.arange(len(rows)), extra])[order]
+    if labels is None:
+        return rows[allrows]
+    return rows[allrows], labels[allrows]
+
+
+def quads_from(X, y, rng, n=None, repeats=None):
     n = n or 3 * len(set(y)) ** 2 + 6
     c = Constraints(y)
     with warnings.catch_warnings():
         warnings.simplefilter('ignore')
         pn = c.positive_negative_pairs(n, same_length=True, random_state=int(rng.randint(1 << 30)))
-    return np.column_stack(pn)
+    q = np.column_stack(pn)
+    if repeats is None:
+        repeats = rng.rand() < 0.35
+    if repeats and len(q):
+        q = with_repeats(rng, q)
+    return q
 
 
 def triplets_from(X, y, rng, kg=2, ki=3):
